@@ -30,7 +30,7 @@ def run(ctx):
         t, i = common.tlc(ctx, "ZnIso", cfg, workers=2, timeout=300, allow_violation=True)
         if not i["violated"]:
             raise common.NoVerdict("sensitivity: %s (process-wide singletons / shared source field) was NOT refuted by TLC" % cfg)
-    if len(seqs) != 1 + 9 + 81 + 729 or len(scheds) != 6 or len(scheds3) != 90:
+    if len(seqs) != 1 + 10 + 100 + 1000 or len(scheds) != 6 or len(scheds3) != 90:
         raise common.NoVerdict("unexpected vector counts %d %d %d" % (len(seqs), len(scheds), len(scheds3)))
     # ---- sequential replay: every sequence, same interpreter and separate interpreters, each in a fresh process
     cases = []
@@ -46,11 +46,20 @@ def run(ctx):
         raise common.NoVerdict("probe does not run in a pristine process: %s" % base[:1])
     pristine = json.dumps(base[0]["val"], sort_keys=True, ensure_ascii=False)
     # the pristine observation itself must be what the spec's Pristine cells mean
-    want = ["0", "m", "GET", [], "undefined", "caught", ["Content-Type"], ["Content-Type"], "42"]
+    want = ["0", "m", "GET", [], "undefined", "caught", ["Content-Type"], ["Content-Type"], "42", "1"]
     v0 = base[0]["val"]["v"]
-    got0 = [v0[0].get("s"), v0[1].get("v"), v0[2].get("v"), v0[3].get("k"), v0[4].get("v"), v0[5].get("v"), v0[6].get("k"), v0[7].get("k"), v0[8].get("s")]
+    got0 = [v0[0].get("s"), v0[1].get("v"), v0[2].get("v"), v0[3].get("k"), v0[4].get("v"), v0[5].get("v"), v0[6].get("k"), v0[7].get("k"), v0[8].get("s"), v0[9].get("s")]
     if got0 != want:
         raise common.NoVerdict("pristine probe observation %s differs from the expected %s" % (got0, want))
+    # vacuity guard: the polluters must do what the spec's Effect() says they do (run to completion; failDeep fails three calls
+    # deep; redefLib is refused by the constructor guard)
+    expect_out = {"failDeep": "error", "redefLib": "error"}
+    for r in res:
+        c = cases[r["id"]]
+        outs = r.get("polluters") or []
+        bad = [(p_, o_) for p_, o_ in zip(c["seq"], outs) if o_ != expect_out.get(p_, "ok")]
+        if bad and len(c["seq"]) == 1 and c["same"]:
+            ctx.notes.append("polluter %s ended with '%s' (expected '%s'): the sequences containing it may exercise less than the spec assumes" % (bad[0][0], bad[0][1], expect_out.get(bad[0][0], "ok")))
     for r in res:
         c = cases[r["id"]]
         if r["obs"] in ("panic", "timeout", "exit", "harness-error"):
@@ -58,7 +67,7 @@ def run(ctx):
         now = json.dumps(r.get("val"), sort_keys=True, ensure_ascii=False) if r["obs"] == "value" else "error: " + str(r.get("msg"))
         if now != pristine:
             # which cell changed
-            names = ["数值", "异常-constructor", "library-constructor", "library-defaults", "declared-names", "fault-handling", "response-default-headers", "response-default-headers-json", "module-file-resolution"]
+            names = ["数值", "异常-constructor", "library-constructor", "library-defaults", "declared-names", "fault-handling", "response-default-headers", "response-default-headers-json", "module-file-resolution", "数值-seen-by-input-variable-text"]
             changed = "probe-failed"
             if r["obs"] == "value":
                 pv = base[0]["val"]["v"]; nv = r["val"]["v"]
@@ -85,27 +94,37 @@ def run(ctx):
                 common.report(ctx, "conc:foreign-program", "schedule %s: request %d was answered with %r" % (order, i + 1, body), dict(case=c, result=r))
                 break
     # ---- data races: same concurrent replay under the race detector (thorough tier)
-    race = "not run (thorough tier only)"
-    if not quick:
-        rbin = common.build_harness(ctx, race=True)
-        inp = os.path.join(ctx.scratch, "race-in.ndjson")
-        with open(inp, "w") as f:
-            for c in ccases[:60]:
-                f.write(json.dumps(c) + "\n")
-            # the gates synchronise the goroutines (no race is visible through them): free-running requests too
-            for i in range(300):
-                f.write(json.dumps(dict(id=100000 + i, s=[], n=2 + i % 3, free=True)) + "\n")
-        p = subprocess.run([rbin, "isoconc", "-j", "2", "-t", "60"], stdin=open(inp), capture_output=True, text=True, cwd=ctx.scratch, env=dict(os.environ, GORACE="halt_on_error=0"))
-        nrace = p.stderr.count("WARNING: DATA RACE")
-        race = "%d data race reports" % nrace
-        if nrace:
-            sites = sorted(set(l.strip() for l in p.stderr.splitlines() if "/repo/pkg/" in l))[:6]
-            common.report(ctx, "race:data-race", "Go race detector reported %d data races during the concurrent replay: %s" % (nrace, sites), dict(stderr=p.stderr[-3000:]))
+    # (both tiers; the free-running requests use the predefined values, a library, the random source, exceptions and an
+    # input-variable text, so that whatever is shared between requests is touched from several goroutines)
+    rbin = common.build_harness(ctx, race=True)
+    inp = os.path.join(ctx.scratch, "race-in.ndjson")
+    nfree = 80 if quick else 400
+    with open(inp, "w") as f:
+        for c in ccases[:(12 if quick else 60)]:
+            f.write(json.dumps(c) + "\n")
+        # the gates synchronise the goroutines (no race is visible through them): free-running requests too
+        for i in range(nfree):
+            f.write(json.dumps(dict(id=100000 + i, s=[], n=2 + i % 4, free=True)) + "\n")
+    p = subprocess.run([rbin, "isoconc", "-j", "4", "-t", "60"], stdin=open(inp), capture_output=True, text=True, cwd=ctx.scratch, env=dict(os.environ, GORACE="halt_on_error=0", VERIF_WORKER_STDERR="1", VERIF_SCRATCH=ctx.scratch))
+    rres = [json.loads(l) for l in p.stdout.splitlines() if l.strip().startswith("{")]
+    if p.returncode != 0 or len(rres) < nfree:
+        raise common.NoVerdict("race-detector run: rc=%s, %d results: %s" % (p.returncode, len(rres), p.stderr[-800:]))
+    for r in rres:
+        if r.get("id", 0) >= 100000 and r.get("obs") == "done":
+            for i, body in enumerate(r["bodies"]):
+                if body != "我是请求%d" % (i + 1):
+                    common.report(ctx, "conc:free-running:foreign-or-failed", "free-running request %d of %d was answered with %r" % (i + 1, len(r["bodies"]), body[:200]), dict(result=r))
+                    break
+    nrace = p.stderr.count("WARNING: DATA RACE")
+    race = "%d data race reports in %d gated + %d free-running concurrent replays" % (nrace, len(rres) - nfree, nfree)
+    if nrace:
+        sites = sorted(set(l.strip() for l in p.stderr.splitlines() if "/pkg/" in l and ".go:" in l))[:6]
+        common.report(ctx, "race:data-race", "Go race detector reported %d data races during the concurrent replay: %s" % (nrace, sites), dict(stderr=p.stderr[-3000:]))
     cov = dict(traces_validated_against_impl=len(cases) + len(ccases), samples=[dict(sequence=seqs[57]["seq"]), dict(schedule=scheds[3]["s"])],
                evaluations=len(cases) + len(ccases), distinct_nontrivial=len(seqs) + len(scheds) + len(scheds3),
-               rule="sequential: all 820 sequences P1;..;Pn (n<=3; quick: all of n<=2 and a seeded 40 percent of n=3) over 9 polluters (mutate 数值 in place, redefine the constructor of 异常, redefine a "
+               rule="sequential: all 1111 sequences P1;..;Pn (n<=3; quick: all of n<=2 and a seeded 40 percent of n=3) over 10 polluters (mutate 数值 in place, redefine the constructor of 异常, redefine a "
                     "library type's constructor, mutate a library type's dictionary default through an instance, write into the headers a response constructor supplied, fail three calls "
-                    "deep, declare names/methods/types, import libraries, run a FILE that imports a custom module file), each on ONE interpreter "
+                    "deep, declare names/methods/types, import libraries, run a FILE that imports a custom module file, a request whose INPUT-VARIABLE TEXT mutates 数值), each on ONE interpreter "
                     "object and on separate ones, each in a fresh process, followed by a probe that observes every cell: the observation must equal the probe's in a "
                     "pristine process. static: the go/types inventory of package-level variables must equal the classified GLOBALS table of the spec. concurrent: all 6 interleavings of bind-source/read-source of 2 requests (x%d) and %d of the 90 of 3 requests through one "
                     "ZnPlaygroundHandler, the order enforced by the H4 gates: every request must be answered with its own program's result. TLC checks Isolation / "
@@ -115,5 +134,5 @@ def run(ctx):
     if unmodelled_globals or stale_globals:
         # not a verdict by itself (the dynamic sequences above are): recorded, so that the new / re-typed variable gets classified
         ctx.notes.append("package-level variables differ from spec/ZnIso.tla GLOBALS (classify them): unmodelled=%s stale=%s" % (unmodelled_globals, stale_globals))
-    return cov, ["data-race freedom is checked with the Go race detector (thorough tier), not model-checked (DESIGN section 6)",
+    return cov, ["data-race freedom is checked with the Go race detector on the concurrent replays (both tiers), not model-checked (DESIGN section 6)",
                  "the library type is the harness-side library exporting pkg/common's HTTP classes (stdlib/http does not compile)"]
